@@ -48,10 +48,24 @@ func TestParse(t *testing.T) {
 
 func TestRepanicked(t *testing.T) {
 	s := "panic: assignment to entry in nil map [recovered, repanicked]\n\tpanic: +1.500000e+000\n[signal SIGSEGV: x]\n\ngoroutine 1 [running]:\n"
-	chain, ok := ParseHeader(s)
-	want := []Entry{{Text: "assignment to entry in nil map", Recovered: true, Collapsed: true}, {Text: "assignment to entry in nil map"}, {Text: "+1.500000e+000"}}
-	if !ok || !reflect.DeepEqual(chain, want) {
-		t.Fatalf("got %#v", chain)
+	hdr, ok := ParseHeader(s)
+	want := []Entry{{Text: "assignment to entry in nil map", Recovered: true, Collapsed: true}, {Text: "+1.500000e+000"}}
+	if !ok || !reflect.DeepEqual(hdr, want) {
+		t.Fatalf("got %#v", hdr)
+	}
+	// 4 panics on the stack: the collapsed line stands for 3 of them
+	chain, approx := Expand(hdr, 4)
+	if approx || len(chain) != 4 || !chain[0].Recovered || !chain[1].RecUnknown || !chain[2].RecUnknown || chain[3].Text != "+1.500000e+000" {
+		t.Fatalf("%#v %v", chain, approx)
+	}
+	// two collapsed lines: approximate
+	_, approx = Expand([]Entry{{Text: "a", Collapsed: true}, {Text: "b", Collapsed: true}}, 5)
+	if !approx {
+		t.Fatal("want approx")
+	}
+	// fewer frames than lines: approximate
+	if _, approx = Expand(hdr, 1); !approx {
+		t.Fatal("want approx")
 	}
 }
 
